@@ -160,7 +160,7 @@ func (m *model) apply(o Op, st *stats) {
 			s.breakVia[o.Via] = true
 			if s.lastAwait != "" {
 				s.aimed[s.lastAwait] = true
-				if s.lastAwait == "first" && len(m.units) >= 1000 {
+				if (s.lastAwait == "first" || s.lastAwait == "dialed") && len(m.units) >= 1000 {
 					s.aimedBig = true
 				}
 			}
